@@ -267,6 +267,8 @@ def write_complete_rules(ck, P):
 
 def rules(ck, P):
     write_complete_rules(ck, P)
+    from . import c17 as _c17
+    _c17.mbtiles_meta_rule(ck, P)       # the MBTiles metadata rows also carry the declared format (shared with C17)
     # ---------------- R-WIRE
     recs = [
         ("versatiles.header", "types::file_header::FileHeader::to_blob", "types::file_header::FileHeader::from_blob", 0),
